@@ -287,6 +287,12 @@ func checkString(text string, base int, prec uint32, mode uint8, cnt map[string]
 		}
 	}
 	near := withinUlps(res.z.Digits, int64(res.z.Exp), D, E, pe, 2)
+	// The recorded finding (2**k rounded before the division) can only arise when
+	// 2**|exp2| has more digits than the working precision prec+19; otherwise the
+	// power of two is exact and any deviation is something else.
+	if pow2Digits := int64(float64(absI64(l.exp2))*0.30103) + 1; pow2Digits <= int64(p)+wordDigits {
+		near = false
+	}
 	if uint(len(tz)) <= p {
 		cnt["values_checked_exact_nondecimal"]++
 		want := refRound(l.neg, D, E, p, int(mode))
